@@ -238,3 +238,37 @@ func init() {
 }
 
 var directedC03 []func(*fam)
+
+func init() {
+	register(&Check{Prop: "C10", Level: "exploration",
+		Rule:   "scenario family with pods/revisions of every owner kind (this set, same-named set with another UID, another controller, none), label match, terminating flag, overlapping selectors and stale set caches; every controller write on pods / revisions / sets is checked against the owner of its target before the call; non-trivial = reconcile that wrote to an existing pod or revision; cache objects are compared with pre-reconcile deep copies",
+		Assume: simAssumptions, Cases: scenarioCases(480, 24000),
+		Run: scenarioFamily("C10", cfgDefault, mon.CheckC10, func(v *mon.View) bool {
+			for _, c := range v.R.Writes() {
+				if (c.Res == simapi.Pods || c.Res == simapi.Revisions) && c.Verb != "create" {
+					return true
+				}
+			}
+			return false
+		}, nil),
+		Floors: []string{"ownership_writes_checked", "adoption_patches_checked", "nonmatching_owned_pod_writes", "fresh_reads_seen"}})
+	register(&Check{Prop: "C06", Level: "exploration",
+		Rule:   "scenario family with 0..2 claim templates, set names with dashes/digits, stale claim caches and faults on claim creates; the ordered write log of the real pod control is checked for identity stamping, claims-before-pod and claim immutability; directed slot-in/slot-out histories check that the same claim objects (UID) come back; non-trivial = reconcile that created a pod",
+		Assume: simAssumptions, Cases: scenarioCases(480, 24000),
+		Run:    scenarioFamily("C06", cfgDefault, mon.CheckC06, hasPodCreate, directedC06),
+		Floors: []string{"created_pods_checked", "claim_creates_checked", "claim_bindings_checked", "claim_history_scenarios"}})
+	register(&Check{Prop: "C08", Level: "exploration",
+		Rule:   "scenario family with template edits, rollbacks (4 template versions), non-template edits, stray revisions; after every successful reconcile the believed update revision must mirror the cached template (independent decode and the exported ApplyRevision); revision creates / renumbers are checked; directed name-collision scenarios; non-trivial = reconcile that created or renumbered a revision",
+		Assume: simAssumptions, Cases: scenarioCases(480, 24000),
+		Run: scenarioFamily("C08", cfgDefault, mon.CheckC08, func(v *mon.View) bool {
+			for _, c := range v.R.Writes() {
+				if c.Res == simapi.Revisions && (c.Verb == "create" || c.Verb == "update") {
+					return true
+				}
+			}
+			return false
+		}, directedC08),
+		Floors: []string{"revision_creates_checked", "revision_renumbers_checked", "successful_reconciles_checked", "unchanged_template_reconciles", "name_collisions_seen"}})
+}
+
+var directedC06, directedC08 []func(*fam)
